@@ -39,6 +39,10 @@ THEOREMS = [
     "BeyondVerif.C15.mut_sep",
     "BeyondVerif.C15.muts_sep",
     "BeyondVerif.C15.copy_then_mutations_invisible",
+    "BeyondVerif.C15.mut_out",
+    "BeyondVerif.C15.muts_out",
+    "BeyondVerif.C15.copy_region_out",
+    "BeyondVerif.C15.original_mutations_invisible",
     "BeyondVerif.C15.asSV_then_mutations_invisible",
     "BeyondVerif.C15.pickle_then_mutations_invisible",
     "BeyondVerif.C15.ctor_separate",
@@ -72,7 +76,8 @@ LEVEL_TEXT = ("Lean theorems over an object-graph (heap) model of StateVector/Or
               "well-formed heap a cell reachable both from a copy and from its original is a maneuver object and nothing else, at any depth (copy_shares_only_maneuver_objects), also after copy(form/frame) whether it succeeds or fails "
               "(copyForm_separate, copyFrame_separate); over HISTORIES: after a copy / as_statevector / unpickling, any sequence of in-place operations on the new object — form, frame (incl. transformations the environment makes "
               "fail), element by name/index, metadata keys, metadata containers empty or not and nested, the maneuver list incl. the one the getter creates on a mere read, covariance frame — each succeeding or raising, leaves every "
-              "pre-existing cell bit-identical (copy_then_mutations_invisible, by induction over the sequence); a covariance built from a list, an ndarray or another covariance gets a new buffer cell and only the owner's own dict is "
+              "pre-existing cell bit-identical (copy_then_mutations_invisible, by induction over the sequence), and any such sequence on the original (or any other object) leaves every cell the copy consists of bit-identical "
+              "(original_mutations_invisible); a covariance built from a list, an ndarray or another covariance gets a new buffer cell and only the owner's own dict is "
               "rewritten (attachCov_result, covFrom_frame); the maneuver getter creates a new list per object (getMans_creates_new); every failing form change and every failing covariance frame change leaves the heap identical, a "
               "failing frame assignment — unknown name, Hill, unreachable centre, missing EOP data, the covariance that has to follow cannot be converted — from ANY form leaves form, frame, _data and every cell but the coordinate buffer "
               "bit-identical and the buffer untouched or the round trip form->cartesian->form of its content (setFrame_error_atomic, setFrame_error_frame, in full since /repo 45ca5d0); copy.deepcopy writes no old cell and stores only new "
@@ -80,8 +85,8 @@ LEVEL_TEXT = ("Lean theorems over an object-graph (heap) model of StateVector/Or
               "regenerated from beyond.orbits.forms on every run. The model agrees exactly (object-identity partition incl. memory owners of all buffers and cloned Frame objects, labels, error kinds, bit-identical buffers) with the "
               "real classes on random operation sequences.")
 LEVEL_NOTE = ("shared maneuver objects (kept on purpose by the library) are the open finding; the maneuver objects are the one exception in the separation theorems; that the "
-              "content of copied containers equals the original's, and the pickle round trip as an isomorphism, are compared exactly by the correspondence but not proved; the history theorem covers in-place operations on the NEW "
-              "object (the other direction, and setCov / Cov-from-Cov inside a history, are compared by the correspondence and judged by the history oracle only); that the result of copy.deepcopy reaches no OLD maneuver object is proved "
+              "content of copied containers equals the original's, and the pickle round trip as an isomorphism, are compared exactly by the correspondence but not proved; the history theorems cover in-place operations on the new object and, "
+              "the other way round, on the original (setCov / Cov-from-Cov / copies of copies inside a history are compared by the correspondence and judged by the history oracle only); that the result of copy.deepcopy reaches no OLD maneuver object is proved "
               "up to the intermediate maneuver lists of copy() (stdDeepcopy_separate) and kernel-checked on a witness heap (deepcopy_shares_nothing), not for every heap; heap model hand-written, tied by the correspondence run; Lean kernel + propext/Classical.choice/Quot.sound")
 TECHNIQUE = "Lean 4 proof over an object-graph (heap) model + kernel decide on regenerated name/alias tables; exact model/implementation correspondence"
 TRUSTED = [
@@ -117,7 +122,7 @@ OPEN = [
     "copy.deepcopy: stdDeepcopy_separate leaves maneuver objects as the possible exception (the lists copy() made on the way, which the result no longer refers to, still hold the old objects); that no old maneuver object is REACHABLE "
     "from the result needs 'an address returned by a copy step is referred to by nothing else' (freshness / no dangling address in intermediate heaps = WfM preservation), kernel-checked on the witness heap only",
     "WfM is not proved to be preserved by the operations (it is a hypothesis of copy_separate / asOrbit_separate / asSV_separate); hence histories that copy a copy, or attach a covariance to the copy (setCov / covFrom run copy() inside), are outside copy_then_mutations_invisible",
-    "the mirror direction of copy_then_mutations_invisible (in-place operations on the ORIGINAL never reach a cell of the copy) needs the separation invariant phrased for an arbitrary region instead of 'addresses below the old length'; single-step facts: copy_shares_only_maneuver_objects + the *_frame theorems",
+    "both directions of the history theorem (copy_then_mutations_invisible, original_mutations_invisible) cover the eleven in-place operations of `Mut`; operations that copy inside (cov= from values or from another covariance, copies of copies) within a history are compared by the correspondence and judged by the history oracle only",
     "copyFrame_receiver_unchanged now carries the hypothesis WfM h (the covariance that follows the frame change writes its buffer cell, which is new because the copy is separated)",
 ]
 RULE = ("correspondence: (a) exhaustive name resolution: every form x every reserved name, alias and two free keys; (b) random sequences of 1-2 constructions (form, frame incl. Hill, Orbit or StateVector, metadata absent / non-empty and nested / "
